@@ -9,6 +9,10 @@ S_NOTE = ("Trusted base: the vsched scheduler model of Go's sync/atomic/channel/
           "happens-before race detector on every struct field of the package in every explored execution. Sequentially consistent "
           "atomics; no weak-memory effects. Scenarios are small (1-2 lanes, 2-5 tasks); beyond the reported bound the argument is the small-scope hypothesis.")
 
+LOG_NOTE = ("Trusted base: the ordered JSON reader (encoding/json tokens) / the key=value tokenizer, the reference builder of the expected "
+            "attribute structure (engine/vlog), slog's own Record/GroupValue semantics. Scope: strings exhaustive to 2 bytes and single scalars; "
+            "attribute structure exhaustive within a node budget (4 quick / 5 thorough) over 4 representative leaves, all 36 value kinds at 9 position classes.")
+
 CHECKS = {
  'C06': dict(engine='vsched', cat='model_checking', ref='4 (C06), 2.2',
    technique='stateless model checking of the instrumented real code: controlled scheduler, deviation-bounded (preemption / delay) DFS with happens-before state cache',
